@@ -138,3 +138,16 @@ Definition strace_eqb (a b : list psumG) : bool :=
      | [], [] => true
      | d :: a', e :: b' => psum_eqb d e && go a' b'
      | _, _ => false end) a b.
+
+(* ---- the qubits of a sum: PauliSum.qubits, the default register of matrix() / sparse_matrix() / with_qubits /
+   PauliSumExponential.  Sorted, without repetition, the union of the keys of the terms; the implementation skips the
+   terms whose coefficient is zero (LinearDict.keys), which needs a decidable zero test: the exact instance. ---- *)
+Fixpoint qins (q : qid) (l : list qid) : list qid :=
+  match l with
+  | [] => [q]
+  | x :: r => if (q <? x)%Z then q :: l else if (q =? x)%Z then l else x :: qins q r
+  end.
+Definition psum_support {K} (s : psum (K:=K)) : list qid :=
+  fold_right (fun e acc => fold_right qins acc (pm_keys (fst e))) [] s.
+Definition psum_qubitsG (s : psumG) : list qid :=
+  psum_support (filter (fun e => negb (gq_is0 (snd e))) s).
